@@ -68,10 +68,17 @@ func clientType(genpkg string, svc *expr.HTTPServiceExpr, seen map[string]struct
 	for _, a := range svc.HTTPEndpoints {
 		adata := data.Endpoint(a.Name())
 		if data := adata.Payload.Request.ClientBody; data != nil {
-			if _, ok := seen[data.Name]; ok {
+			// The name of a body that is not a user type is the name of
+			// its kind ("map", "array"...): identify it with the name of
+			// its constructor if any.
+			key := data.Name
+			if data.Def == "" && data.Init != nil {
+				key = data.Init.Name
+			}
+			if _, ok := seen[key]; ok {
 				continue
 			}
-			seen[data.Name] = struct{}{}
+			seen[key] = struct{}{}
 			if data.Def != "" {
 				sections = append(sections, &codegen.SectionTemplate{
 					Name:   "client-request-body",
